@@ -99,7 +99,7 @@ def step (st : St) (toks : List String) : St × List String :=
     | some r =>
       match r.err, r.last, splitLast st.files with
       | none, some last, some (older, cur) =>
-        let w := wsInit r.pos.toNat r.crc last r.ts
+        let w := wsInit st.cfg true r.pos.toNat r.crc last r.ts
         let c0 : Commit := { off := r.pos, crc := r.crc, ts := r.ts }
         let l : LS := { cur := { data := cur, synced := cur.length }, older := older.reverse.map (fun d => { data := d, synced := d.length }),
                         lastFsync := r.pos.toNat, dirty := false, commits := [c0] }
@@ -110,7 +110,7 @@ def step (st : St) (toks : List String) : St × List String :=
     | some s, some asap, some inOff, some ts, some h1, some h2, some body =>
       let (w', res, next) := putLev st.cfg s.w inOff body (asap == 1) ts h1 h2
       let added := w'.buff.drop s.w.buff.length
-      let rs := match res with | .ok => "ok" | .stopped => "stopped" | .wrongOffset => "wrongOffset"
+      let rs := match res with | .ok => "ok" | .stopped => "stopped" | .wrongOffset => "wrongOffset" | .panic => "panic"
       let add := match res with | .ok => (crcUpdate 0 added).toNat | _ => 0
       ({ st with sys := some { s with w := w' } }, [s!"app res={rs} next={next} crc={w'.crc.toNat} add={add}"])
     | _, _, _, _, _, _, _ => (st, ["bad-op"])
